@@ -312,7 +312,7 @@ def history(seed: int, nsteps: int = 10, sources=None) -> list:
                     ev["new"] = part_ids(name, data, ids)
                     known.add(name)
                 elif op == "del_part":
-                    cands = [n for n in known if n.rsplit("/", 1)[-1] not in XML_PARTS + ("manifest.xml",) and n != "mimetype" and "/" in n]
+                    cands = [n for n in known if n.rsplit("/", 1)[-1] not in XML_PARTS + ("manifest.xml",) and n != "mimetype" and ("/" in n or n == "manifest.rdf")]
                     if not cands:
                         continue
                     name = rng.choice(sorted(cands))
